@@ -199,7 +199,7 @@ def run(ctx):
                         constants={"W": 3, "MaxWords": ctx.pick(4, 5), "MaxChunkBits": ctx.pick(13, 16)})
     ctx.mc("mc-chunks", "C07", "ChunksAlg.tla", ccfg, workers=4)
     acfg = fw.write_cfg(ctx.path("MC_ChunksAlg_arb.cfg"), spec="ArbSpec", invariants=["ArbOK"],
-                        constants={"W": 3, "MaxWords": 2, "MaxChunkBits": ctx.pick(8, 14)})
+                        constants={"W": 3, "MaxWords": 2, "MaxChunkBits": ctx.pick(8, 12)})     # (2 * 12 + 6 bits stay inside TLC's integers)
     ctx.mc("mc-chunks-arb", "C07", "ChunksAlg.tla", acfg, workers=4)
     # byte encodings at byte / word level (two-bit bytes, two-byte words): every integer and every byte string of the scope
     bcfg = fw.write_cfg(ctx.path("MC_BytesAlg.cfg"), invariants=["EncodeOK", "DecodeOK"],
